@@ -76,7 +76,9 @@ func (e *enumCtx) do(id string, f func() (string, string)) {
 	class, desc := f()
 	if class != "" {
 		e.r.Violate(class, fmt.Sprintf("case %s: %s", id, desc), map[string]any{"scenario": e.name, "case": id}, id, nil)
-		e.stopped = true
+		if !e.j.IsKnown(class) {
+			e.stopped = true
+		}
 	}
 }
 
